@@ -70,6 +70,7 @@ def tasks(tier, seed):
     T.append(('filter_flagged', 3))
     T.append(('types', n_entries))
     T.append(('hookreg',))
+    T.append(('filter_close',))
     from harness import c07, c09
 
     for t in c07.tasks(tier, seed, deepest=False):
@@ -92,6 +93,8 @@ def run_task(rep, task):
         types_case(rep, task[1])
     elif task[0] == 'hookreg':
         hookreg_case(rep)
+    elif task[0] == 'filter_close':
+        filter_close_case(rep)
     elif task[0] == 'ctrl':
         from harness import c07
 
@@ -263,6 +266,36 @@ def types_case(rep, n):
 # ------------------------------------------------------------------------------------------------ (b) histories with all hooks
 
 CALLS = {'add': [], 'evals': 0, 'iters': {}, 'work': {}}
+def filter_close_case(rep):
+    """keys are matched exactly: records whose float times differ by one unit in the last place (or by a relative 1e-9 / 1e-6) are different steps.
+    Concrete floats (the symbolic dictionaries above use integer time fields): ENUMERATED scales and gaps."""
+    from pySDC.core.hooks import Entry
+
+    for t in (0.0, 1.0, 1e3, 1e6, -250.0):
+        for gap in (np.spacing(t if t else 1.0), 1e-12 * max(1.0, abs(t)), 1e-9 * max(1.0, abs(t)), 1e-6 * max(1.0, abs(t))):
+            times = [t - gap, t, t + gap, t + 2 * gap]
+            if len(set(times)) < 4:
+                continue
+            mk = lambda tm, typ, nr=0: Entry(process=0, process_sweeper=None, time=tm, level=0, iter=1, sweep=1, type=typ, num_restarts=nr)
+            stats = {mk(tm, 'niter'): i for i, tm in enumerate(times)}
+            stats.update({mk(tm, 'u'): 10 + i for i, tm in enumerate(times)})
+            # a restarted attempt (generation 0) and its accepted repetition (generation 1) at the second time only
+            stats[mk(times[1], 'niter', 1)] = 99
+            stats[mk(times[1], '_recomputed', 0)] = True
+            stats[mk(times[1], '_recomputed', 1)] = False
+            name = f'filter_close/t{t:g}/gap{gap:.3g}'
+            got = filter_stats(stats, type='niter', time=times[1])
+            ok1 = sorted(got.values()) == [1, 99] and all(k.time == times[1] for k in got)
+            got2 = filter_stats(stats, type='niter', recomputed=False)
+            ok2 = sorted((k.time, v) for k, v in got2.items()) == sorted([(times[0], 0), (times[1], 99), (times[2], 2), (times[3], 3)])
+            rep.translator += 1
+            if not (ok1 and ok2):
+                rep.violation(f'{PID}/filter-matches-keys-exactly', f'{name}: filter_stats(time={times[1]!r}) returns values {sorted(got.values())} (expected [1, 99]); recomputed=False leaves '
+                              f'{sorted((k.time, v) for k, v in got2.items())}', {'task': ['filter_close'], 't': t, 'gap': float(gap)})
+                return
+    rep.side('filter_close/all-scales', True)
+
+
 def shipped_hooks():
     """every hook class defined in pySDC.implementations.hooks that can be imported and instantiated here (found by introspection of the tree)"""
     import importlib
@@ -529,6 +562,13 @@ def replay(path):
         obs, exp = filter_concrete(t[1], t[2], t[3], d['vals'])
         print('observed', obs, 'expected', exp)
         bad = obs != exp
+    elif t[0] == 'filter_close':
+        from symx.report import Report
+
+        rep = Report(PID)
+        filter_close_case(rep)
+        bad = bool(rep.violations)
+        print([v['what'][:300] for v in rep.violations])
     elif t[0] == 'hookreg':
         from harness import c09
         from pySDC.implementations.controller_classes.controller_nonMPI import controller_nonMPI
